@@ -309,6 +309,11 @@ class AsyncSrc:
         # falsy on purpose (like an object with a zero ``__len__``): never a reason to skip it
         return False
 
+    def __len__(self) -> int:
+        # a stream may report its current BACKLOG (like Queue.qsize): that says nothing about how many items it
+        # is going to provide, so it is no basis for a shortcut
+        return 0
+
     def __aiter__(self) -> "AsyncSrc":
         return self
 
